@@ -54,33 +54,61 @@ def observer(case, obs):
     return fails
 
 
+MEMENTO = [('Memento-Datetime', 'Tue, 01 Jan 2019 00:00:00 GMT')]
+
+
 def gen_cases(tier, rng):
     cases = []
     bodies = BODIES if tier == 'thorough' else BODIES[:4]
-    differs = [('length', True), ('identical_bytes', True), ('html_source_dmp', True)]
-    extras = [[], [('a_body', 'zzz')], [('b_text', 'injected'), ('a_text', 'injected')], [('a_hash', 'first-value-is-ignored')]]
+    differs = ['length', 'identical_bytes', 'html_source_dmp', 'html_text_dmp', 'side_by_side_text', 'links_json', 'html_token']
+    extras = [[], [('a_body', 'zzz')], [('b_text', 'injected'), ('a_text', 'injected')], [('a_hash', 'first-value-is-ignored')],
+              [('a_text', 'only-a')], [('b_body', '')], [('a_url', 'http://other/'), ('a_headers', 'h')]]
+    # how each side is served: plain 200, archived error page (memento), local file
+    serve_kinds = ['ok', 'memento', 'file']
+
+    def add(differ, ba, bb, la, ha, lb, hb, ex, ka, kb):
+        raw = list(ex)
+        up, files = {}, {}
+        for side, body, kind in (('a', ba, ka), ('b', bb, kb)):
+            if kind == 'file':
+                url = 'file:///data/%s' % side
+                files['/data/%s' % side] = body
+            else:
+                url = ('http://site.test/%s' if side == 'a' else 'https://site.test/%s') % side
+                if kind == 'ok':
+                    up[url] = sc.ok_up(body, 'text/html; charset=utf-8')
+                else:
+                    up[url] = sc.ok_up(body, 'text/html; charset=utf-8', code=rng.choice([404, 500, 503]), extra=MEMENTO)
+            raw.append((side, url))
+        if ha is not None:
+            raw.append(('a_hash', ha))
+        if hb is not None:
+            raw.append(('b_hash', hb))
+        plain = all(b in (sc.HTML_A, sc.HTML_B, b'plain', b'') for b in (ba, bb))
+        cases.append({'differ': differ, 'raw_query': raw, 'upstream': up, 'files': files, 'differ_mode': 'real',
+                      'plain_utf8': plain, 'tolerate_differ_error': not plain, 'labels': (la, lb)})
+
+    # 1. systematic: every differ x every injection x every serving kind, with correct hashes (a 200 must be the diff of the hashed content)
+    for differ in differs:
+        for ex in extras:
+            for ka, kb in itertools.product(serve_kinds, serve_kinds):
+                if tier == 'quick' and (ka, kb) not in (('ok', 'ok'), ('memento', 'file'), ('file', 'memento'), ('ok', 'memento')):
+                    continue
+                ba, bb = sc.HTML_A, sc.HTML_B
+                add(differ, ba, bb, 'correct', hashlib.sha256(ba).hexdigest(), 'correct', hashlib.sha256(bb).hexdigest(), ex, ka, kb)
+    # 2. every hash class on each side x serving kind
     for (ba, bb) in itertools.product(bodies, bodies[:3]):
         for (la, ha), (lb, hb) in itertools.product(hash_variants(ba), hash_variants(bb)):
-            if tier == 'quick' and rng.random() > 0.35 and not (la == 'correct' and lb == 'correct'):
+            if tier == 'quick' and rng.random() > 0.3:
                 continue
-            differ, _ = differs[rng.randrange(len(differs))]
+            differ = differs[rng.randrange(3)]
             ex = extras[rng.randrange(len(extras))]
-            raw = list(ex) + [('a', 'http://site.test/a')]
-            if ha is not None:
-                raw.append(('a_hash', ha))
-            if hb is not None:
-                raw.append(('b_hash', hb))
-            use_file = rng.random() < 0.25
-            raw.append(('b', 'file:///data/b' if use_file else 'https://site.test/b'))
-            up = {'http://site.test/a': sc.ok_up(ba, 'text/plain; charset=utf-8')}
-            files = {}
-            if use_file:
-                files['/data/b'] = bb
-            else:
-                up['https://site.test/b'] = sc.ok_up(bb, 'text/plain; charset=utf-8')
-            plain = all(b in (sc.HTML_A, sc.HTML_B, b'plain', b'') for b in (ba, bb))
-            cases.append({'differ': differ, 'raw_query': raw, 'upstream': up, 'files': files, 'differ_mode': 'real',
-                          'plain_utf8': plain, 'tolerate_differ_error': not plain, 'labels': (la, lb)})
+            add(differ, ba, bb, la, ha, lb, hb, ex, rng.choice(serve_kinds), rng.choice(serve_kinds))
+    # 3. each wrong-hash class on a memento response and on a file, exhaustively (small)
+    for kind in serve_kinds:
+        for (la, ha) in hash_variants(sc.HTML_A)[2:]:
+            add('length', sc.HTML_A, sc.HTML_B, la, ha, 'absent', None, [], kind, 'ok')
+            add('html_source_dmp', sc.HTML_B, sc.HTML_A, 'absent', None, la, ha, [], 'ok', kind)
     return cases
 
 
